@@ -1268,8 +1268,16 @@ impl SG<'_, '_> {
                         self.pre.push(format!("var c{id} = {{a: {{toJSON: function() {{ return c{id}; }}}}}};"));
                     }
                     3 => {
+                        // the same node reached several times is not a cycle, whatever it serialises to
                         self.lab("sv-shared-node");
-                        self.pre.push(format!("var s{id} = {{n: [1]}}; var c{id} = [s{id}, s{id}, {{again: s{id}}}];"));
+                        let shape = *self.g.t.pick(&[
+                            "{n: [1]}", "{}", "[]", "new Map([[1, 2]])", "new Set([1])", "Object.create({inherited: 1})", "Object.defineProperty({}, 'hidden', {value: 1})",
+                            "{[Symbol('s')]: 1}", "{u: undefined, f: function () {}}", "[[]]", "{e: {}}", "{toJSON: function () { return {}; }}", "new Boolean(false)",
+                        ]);
+                        if shape != "{n: [1]}" {
+                            self.lab("sv-shared-empty-node");
+                        }
+                        self.pre.push(format!("var s{id} = {shape}; var c{id} = [s{id}, s{id}, {{again: s{id}, twice: [s{id}]}}];"));
                     }
                     _ => {
                         self.lab("sv-cycle");
